@@ -62,9 +62,12 @@ func smtText(c *Ctx, o *Obligation) string {
 	if n > len(c.asserts) {
 		n = len(c.asserts)
 	}
-	for _, a := range c.asserts[:n] {
+	for i, a := range c.asserts[:n] {
 		if a == "true" {
 			continue
+		}
+		if o.Anc != nil && i < len(c.assertTag) && c.assertTag[i] >= 0 && !o.Anc[c.assertTag[i]] {
+			continue // made while translating a block that cannot reach the obligation's block
 		}
 		b.WriteString("(assert ")
 		b.WriteString(a)
